@@ -367,7 +367,9 @@ def check_opcode(ctx, f, name, arg):
 
 
 NAME_PAIRS = [("mod", "\u00b5"), ("\uff4f\uff53", "getpid"), ("mod", "\ufb01le"), ("m", "e\u0301x"), ("caf\u00e9", "\u4e2d"), ("pkg.sub", "K"),
-              ("m", "\u00aa"), ("\U0001d41a", "x"), ("mod", "plain")]
+              ("m", "\u00aa"), ("\U0001d41a", "x"), ("mod", "plain"),
+              # names the two-line text form cannot carry: blanks, newlines, nothing at all
+              ("a b", "c"), ("m", "x "), ("m", " x"), ("m", "x\ny"), ("m\n", "x"), ("m", ""), ("", "x"), ("m", "x\ty"), ("m", "x\u3000y")]
 
 
 def check_created_names(ctx, f):
